@@ -10,6 +10,7 @@ import Driver.AppMsgDrv
 import Driver.MediaDrv
 import Driver.CrashCoreDrv
 import Driver.WrapDrv
+import Driver.MsgWinDrv
 
 def main (args : List String) : IO UInt32 := do
   match args with
@@ -25,4 +26,5 @@ def main (args : List String) : IO UInt32 := do
   | ["mediaw"] => Driver.MediaDrv.main; return 0
   | ["crashcore"] => Driver.CrashCoreDrv.main; return 0
   | ["wrap"] => Driver.WrapDrv.main; return 0
+  | ["msgwin"] => Driver.MsgWinDrv.main; return 0
   | _ => IO.eprintln "usage: mdkdrv store < ops"; return 2
